@@ -11,6 +11,7 @@ import (
 	"math/rand/v2"
 	"net"
 	"net/netip"
+	"reflect"
 	"runtime"
 	"strings"
 	"sync"
@@ -57,6 +58,8 @@ type c11Peer struct {
 	problem []string
 	keConns int
 	hold    chan struct{} // if set: a response is held back until the channel is closed
+	surplus int           // cookies a response carries beyond those asked for
+	perKE   int           // cookies the key-exchange server issues per exchange (0: eight)
 }
 
 func (p *c11Peer) handle(s *peer.NTPServer, dg []byte, from netip.AddrPort, rx time.Time) {
@@ -112,7 +115,11 @@ func (p *c11Peer) handle(s *peer.NTPServer, dg []byte, from netip.AddrPort, rx t
 	if conn != p.keConns && idx < 8 { // first request after a (re-)key exchange: the pool was refilled with 8 cookies
 		p.keConns = conn
 		p.pool = nil
-		for i := 0; i < 8; i++ {
+		issued := 8
+		if p.perKE > 0 {
+			issued = p.perKE
+		}
+		for i := 0; i < issued; i++ {
 			p.pool = append(p.pool, fmt.Sprintf("%d.%d", conn, i))
 		}
 	}
@@ -155,10 +162,15 @@ func (p *c11Peer) handle(s *peer.NTPServer, dg []byte, from netip.AddrPort, rx t
 	}
 	want := rq.Cookies + rq.Placeholders
 	var cs [][]byte
-	for i := 0; i < want; i++ {
+	kept := 0
+	for i := 0; i < want+p.surplus; i++ {
 		p.issued[keys.ID]++
 		cs = append(cs, peer.TaggedCookie(keys.ID, 100+p.issued[keys.ID], c11CookieLen))
-		p.pool = append(p.pool, fmt.Sprintf("%d.%d", keys.ID, 100+p.issued[keys.ID]))
+		// a server that sends more cookies than were asked for: the client keeps a pool of eight
+		if len(p.pool) < 8 {
+			p.pool = append(p.pool, fmt.Sprintf("%d.%d", keys.ID, 100+p.issued[keys.ID]))
+			kept++
+		}
 	}
 	now := time.Now()
 	hdr := peer.NTPFields{LVM: 0x24, Stratum: 1, Poll: f.Poll, Precision: -30, Origin: f.Transmit, Receive: peer.ToNTP64(rx), Transmit: peer.ToNTP64(now)}.Bytes()
@@ -169,8 +181,13 @@ func (p *c11Peer) handle(s *peer.NTPServer, dg []byte, from netip.AddrPort, rx t
 		p.mu.Lock()
 	}
 	s.Send(from, resp)
-	p.level += want
+	p.level += kept
 	rq.Answered = true
+}
+
+// c11PoolLen reads the length of the client's cookie pool (an unexported field; only its length is read).
+func c11PoolLen(c *client.IPClient) int {
+	return reflect.ValueOf(&c.Auth.NTSKEFetcher).Elem().FieldByName("data").FieldByName("Cookie").Len()
 }
 
 // c11Overlap: a key exchange that outlives its round. The rounds of the time service give up at
@@ -202,6 +219,9 @@ func c11Overlap(r *ev.Run, p *c11Peer, srvIP netip.Addr, local *net.UDPAddr, keA
 			}
 			return peer.KEMessage(15, srvIP.String(), p.srv.Addr.Port(), cs), nil, -1
 		})
+		p.mu.Lock()
+		p.perKE = perKE
+		p.mu.Unlock()
 		variant := fmt.Sprintf("after a key exchange that outlived its round,interleaved=%v,cookies per key exchange=%d", inter, perKE)
 		if !inter && perKE == 8 {
 			variant = "after a key exchange that outlived its round"
@@ -314,6 +334,10 @@ func c11ClientLeg(r *ev.Run) {
 		p.mu.Lock()
 		p.nreq, p.reqs, p.problem = 0, nil, nil
 		p.drop = func(n int) bool { return n < len(pattern) && pattern[n] }
+		p.surplus = 0
+		if strings.HasPrefix(id, "s") {
+			p.surplus = []int{1, 3, 9}[len(pattern)%3]
+		}
 		p.mu.Unlock()
 		var outcome []string
 		minLevel := 8
@@ -335,6 +359,13 @@ func c11ClientLeg(r *ev.Run) {
 			p.mu.Unlock()
 			if lvl < minLevel {
 				minLevel = lvl
+			}
+			if n := c11PoolLen(c); n > 8 {
+				p.mu.Lock()
+				w := map[string]any{"loss_pattern": pattern, "at_exchange": i, "cookies_in_the_client's_pool": n, "surplus_cookies_per_response": p.surplus, "requests": p.reqs}
+				p.mu.Unlock()
+				r.Violation("ip-client(NTS)|state:cookie pool grew beyond eight", id, w)
+				return
 			}
 			switch {
 			case pnc != nil:
@@ -413,6 +444,15 @@ func c11ClientLeg(r *ev.Run) {
 		run(fmt.Sprintf("d%d", k), pat)
 	}
 	rng := r.Rng("c11")
+	for k := 0; k < r.Pick(9, 150); k++ { // responses that carry more cookies than were asked for
+		pat := make([]bool, 6+k%7)
+		for i := range pat {
+			pat[i] = rng.IntN(4) == 0
+		}
+		pat[len(pat)-1] = false
+		run(fmt.Sprintf("s%d", k), pat)
+		r.Class("responses-with-surplus-cookies")
+	}
 	for k := 0; k < r.Pick(20, 600); k++ {
 		pat := make([]bool, 12+rng.IntN(30))
 		for i := range pat {
